@@ -79,6 +79,7 @@ impl PanicInfo {
 
 thread_local! {
     static LAST_PANIC: RefCell<Option<PanicInfo>> = RefCell::new(None);
+    static CATCH_DEPTH: std::cell::Cell<u32> = std::cell::Cell::new(0);
 }
 
 pub fn install_panic_hook() {
@@ -94,6 +95,10 @@ pub fn install_panic_hook() {
         } else {
             "<non-string panic>".to_string()
         };
+        if CATCH_DEPTH.with(|d| d.get()) == 0 {
+            // not inside a guarded library call: this is the harness itself
+            eprintln!("vcheck: harness panic at {}:{}: {}", file, line, msg);
+        }
         LAST_PANIC.with(|p| *p.borrow_mut() = Some(PanicInfo { file, line, msg }));
     }));
 }
@@ -101,7 +106,10 @@ pub fn install_panic_hook() {
 /// Run `f`; a panic becomes Err with its site and message.
 pub fn catch<T>(f: impl FnOnce() -> T) -> Result<T, PanicInfo> {
     LAST_PANIC.with(|p| *p.borrow_mut() = None);
-    match panic::catch_unwind(AssertUnwindSafe(f)) {
+    CATCH_DEPTH.with(|d| d.set(d.get() + 1));
+    let r = panic::catch_unwind(AssertUnwindSafe(f));
+    CATCH_DEPTH.with(|d| d.set(d.get() - 1));
+    match r {
         Ok(v) => Ok(v),
         Err(_) => Err(LAST_PANIC.with(|p| p.borrow_mut().take()).unwrap_or(PanicInfo {
             file: "?".into(),
